@@ -111,6 +111,10 @@ def writer_board(ctx, F, em):
     rowv, colv = (loops[0][1] or ("?",))[0], (loops[1][1] or ("?",))[0]
     # square read: get_position(new_assert(row, col)) of the loop variables, in that order
     sq = [g for g in plain_guards(guards) if g[0] == "arm" and g[1][0] == "call" and str(g[1][1]).endswith("Game::get_position")]
+    if not sq:
+        # `if let Some(piece) = self.get_position(..)` spelling of the same test
+        sq = [("arm", g[1][2]) for g in plain_guards(guards) if g[0] == "if" and g[2] is True and isinstance(g[1], tuple) and g[1][0] == "let"
+              and g[1][2][0] == "call" and str(g[1][2][1]).endswith("Game::get_position")]
     good = False
     if sq:
         p = sq[0][1][2][1]
